@@ -22,7 +22,7 @@ class Group:
     pass
 
 
-def build(ex, shape, sym_soc=True, wide_battery=False, soc_pattern=None, oneway=None):
+def build(ex, shape, sym_soc=True, wide_battery=False, soc_pattern=None, oneway=None, concrete=None):
     """shape: tuple of (n_batteries, n_inverters) per group.  Returns (pairs, groups) with symbolic data and the
     documented consistency assumptions.  soc_pattern: concrete SoC per group (see below).  wide_battery: the batteries' own capacity, SoC limits and power bounds are concrete
     and non-binding (capacity 1, limits 0..100, bounds +-1e9, no exclusion zone); only their SoC and the inverter data stay symbolic."""
@@ -43,6 +43,8 @@ def build(ex, shape, sym_soc=True, wide_battery=False, soc_pattern=None, oneway=
                 # every share is linear in the symbolic request and bounds (QF_LRA instead of QF_NRA)
                 v.update(cap=1.0, slo=0.0, shi=100.0, soc=float(soc_pattern[g][b] if isinstance(soc_pattern[g], (tuple, list)) else soc_pattern[g]))
             v.update(ow(g))
+            if concrete is not None:   # fully concrete data (IEEE runs): concrete[g] = (battery dict, inverter dict)
+                v = dict(concrete[g][0])
             A(E(v["cap"]) > 0)
             A(z3.And(E(v["slo"]) >= 0, E(v["slo"]) <= E(v["shi"]), E(v["shi"]) <= 100))
             A(z3.And(E(v["soc"]) >= 0, E(v["soc"]) <= 100))
@@ -55,6 +57,8 @@ def build(ex, shape, sym_soc=True, wide_battery=False, soc_pattern=None, oneway=
         for i in range(ni):
             w = {k: ex.real(f"g{g}i{i}_{k}") for k in ("il", "el", "eu", "iu")}
             w.update(ow(g))
+            if concrete is not None:
+                w = dict(concrete[g][1])
             A(z3.And(E(w["il"]) <= E(w["el"]), E(w["el"]) <= 0, 0 <= E(w["eu"]), E(w["eu"]) <= E(w["iu"])))
             G.invs.append(w)
             invs.append(InverterDataWrapper(
@@ -104,9 +108,9 @@ def soc_headroom(G, sign):
     return soc <= lim
 
 
-def request(ex, groups, sign, allow_above_incl=True):
+def request(ex, groups, sign, allow_above_incl=True, value=None):
     """Symbolic request P admitted by the advertised bounds (|P| >= advertised exclusion bound), P != 0."""
-    P = ex.real("P")
+    P = ex.real("P") if value is None else value
     dirs = [directional(G, sign) for G in groups]
     mag = E(P) * sign
     ex.assume(mag > 0)
